@@ -106,16 +106,21 @@ def _(values: pandas.DataFrame) -> set[int]:
 
 @find_nulls.register
 def _(values: numpy.ndarray) -> set[int]:
+    if isinstance(values, FactorValues):
+        values = values.__wrapped__
+
+    # `pandas.isnull` rather than `numpy.isnan`: the latter is undefined for
+    # arrays of strings / Python objects.
     if len(values.shape) == 0:
-        if numpy.isnan(values):
+        if pandas.isnull(values):
             raise ValueError("Constant value is null, invalidating all rows.")
         return set()
 
     if len(values.shape) == 1:
-        return set(numpy.flatnonzero(numpy.isnan(values)))
+        return set(numpy.flatnonzero(pandas.isnull(values)))
 
     if len(values.shape) == 2:
-        return set(numpy.flatnonzero(numpy.any(numpy.isnan(values), axis=1)))
+        return set(numpy.flatnonzero(numpy.any(pandas.isnull(values), axis=1)))
 
     raise ValueError(
         "Cannot check for null indices for arrays of more than 2 dimensions."
